@@ -27,7 +27,7 @@ ASSUMPTIONS = ['curve points are compared with 10^model_fluxes mJy x nu in erg/c
                'apertures are generated with >= 2 distinct values so that "smallest" and "largest" differ',
                'aperture radii are kept below the largest tabulated aperture by >= 2 % (the 0.999 clamp of interpolate_variable is outside the statement)']
 PROBES = ['mode_interp', 'mode_largest', 'mode_largest+smallest', 'mode_all', 'multi_aperture', 'single_aperture', 'channel_path', 'channel_obj',
-          'consumer_before_plot', 'plot_memmap_off', 'f4_storage', 'fewer_models_than_requested', 'best_fit_last_checked', 'wavelengths_in_other_unit', 'prelude_epoch']
+          'consumer_before_plot', 'plot_memmap_off', 'f4_storage', 'fewer_models_than_requested', 'best_fit_last_checked', 'wavelengths_in_other_unit', 'prelude_epoch', 'filters_not_in_wavelength_order']
 
 
 def budgets(tier):
@@ -92,7 +92,11 @@ def _execute(sc, sim, out):
     d = W.write(sim.path('pkg'), fmt=2)
     rng = random.Random(sc['idx_seed'])
     nf = min(sc['nf'], W.n_wav)
-    idx = sorted(rng.sample(range(W.n_wav), nf))
+    idx = rng.sample(range(W.n_wav), nf)            # the filter list is in any order, not sorted by wavelength
+    if sc.get('sorted_filters'):
+        idx = sorted(idx)
+    else:
+        out.probe('filters_not_in_wavelength_order', int(idx != sorted(idx)))
     fw = W.wav[idx]
     trng = random.Random(sc['theta_seed'])
     if apdep:
@@ -234,3 +238,5 @@ def lowerings(sc, viol=None):
             yield dict(sc, world=dict(w, **{key: val}))
     if sc.get('wav_unit', 'micron') != 'micron':
         yield dict(sc, wav_unit='micron')
+    if not sc.get('sorted_filters'):
+        yield dict(sc, sorted_filters=True)
